@@ -7,19 +7,81 @@ import (
 	"github.com/nuts-foundation/nuts-node/network/transport"
 )
 
-// VerifTick fires one gossip round for the given peer exactly as the ticker goroutine of PeerConnected
-// would (callSenders on the peer's queue with the registered senders). Returns false if the peer is unknown.
-func VerifTick(m Manager, peer transport.Peer) bool {
+// VerifHandle stands for the ticker goroutine that PeerConnected started for one peer queue. The goroutine lives until
+// the queue's context is cancelled (peerQueue.unregister, called by PeerDisconnected); the harness cannot see that
+// context, so VerifAfterConnect wraps the queue's cancel function to record the cancellation.
+type VerifHandle struct {
+	pq        *peerQueue
+	cancelled bool
+}
+
+// VerifAfterConnect must be called right after every PeerConnected. It returns the handle of the queue that now exists
+// for the peer: a new one for a queue it has not seen, the existing one otherwise (PeerConnected ignores a peer that
+// already has a queue and then starts NO new ticker goroutine), nil if there is no queue.
+func VerifAfterConnect(m Manager, peer transport.Peer, known []*VerifHandle) *VerifHandle {
+	mm := m.(*manager)
+	mm.mutex.RLock()
+	pq, ok := mm.peers[peer.Key()]
+	mm.mutex.RUnlock()
+	if !ok {
+		return nil
+	}
+	for _, h := range known {
+		if h.pq == pq {
+			return h
+		}
+	}
+	h := &VerifHandle{pq: pq}
+	orig := pq.cancelFunc
+	pq.cancelFunc = func() {
+		h.cancelled = true
+		if orig != nil {
+			orig()
+		}
+	}
+	return h
+}
+
+// VerifTick fires one gossip round for the given peer exactly as the ticker goroutine of PeerConnected would
+// (callSenders on the peer's queue with the registered senders) — provided that goroutine still exists.
+// Result: "sent" (round executed), "no-queue" (peer unknown), "no-ticker" (the queue's ticker goroutine has been
+// cancelled and nothing restarted it: no gossip will ever be sent from this queue).
+func VerifTick(m Manager, peer transport.Peer, known []*VerifHandle) string {
 	mm := m.(*manager)
 	mm.mutex.RLock()
 	pq, ok := mm.peers[peer.Key()]
 	senders := mm.messageSenders
 	mm.mutex.RUnlock()
 	if !ok {
-		return false
+		return "no-queue"
 	}
-	callSenders(peer, pq, senders)
-	return true
+	for _, h := range known {
+		if h.pq == pq {
+			if h.cancelled {
+				return "no-ticker"
+			}
+			callSenders(peer, pq, senders)
+			return "sent"
+		}
+	}
+	panic("verif: gossip queue without a handle (VerifAfterConnect was not called after PeerConnected)")
+}
+
+// VerifTickerAlive tells whether the queue that exists for the peer still has its ticker goroutine.
+func VerifTickerAlive(m Manager, peer transport.Peer, known []*VerifHandle) (exists bool, alive bool) {
+	mm := m.(*manager)
+	mm.mutex.RLock()
+	pq, ok := mm.peers[peer.Key()]
+	mm.mutex.RUnlock()
+	if !ok {
+		return false, false
+	}
+	for _, h := range known {
+		if h.pq == pq {
+			return true, !h.cancelled
+		}
+	}
+	return true, true
 }
 
 // VerifQueue is a copy of the gossip administration kept for one peer.
